@@ -169,7 +169,12 @@ pub fn explore<S: Scenario>(sc: &S, lim: &Limits, seed_perm: u64) -> Report {
         let mut cx = Cx::default();
         for (i, (_name, c, g)) in seeds.iter().enumerate() {
             let fp = state_fp(sc, c, g);
-            if visited.insert(fp, (fp, u32::MAX - i as u32)).is_none() {
+            let mut fresh = false;
+            visited.entry(fp).or_insert_with(|| {
+                fresh = true;
+                (fp, u32::MAX - i as u32)
+            });
+            if fresh {
                 let o = sc.observe(c);
                 sc.state(c, &o, g, &mut cx);
                 for v in cx.viols.drain(..) {
